@@ -4,7 +4,7 @@ SPEC = {
     "level": "model_checking",
     # Two stages of the same harness: the sanitizer build (ASan+UBSan monitor on every transition, linear runs at the real limits)
     # and a plain -O2 build of the same sources that reaches greater depths / fixpoints for the functional oracle (~5.5x faster).
-    # Deadlines are generous on purpose (other checks share the machine); the enumerations need ~1.5 min (quick) / ~9 min (thorough)
+    # Deadlines are generous on purpose (other checks share the machine); the enumerations need ~1.5 min (quick) / ~10-11 min (thorough)
     # of wall time on 16 idle cores.
     "stages": [
         {"name": "san", "harness": "C07_follower.cpp", "config": "san", "args": ["--stage", "san"],
